@@ -1,5 +1,279 @@
 package ctreeprop
 
-import "verif/harness/internal/vstat"
+import (
+	"encoding/json"
+	"flag"
+	"fmt"
+	"math/rand"
+	"sort"
+	"testing"
+	"time"
 
-func replayC10(rf *vstat.ReplayFile) string { return "unknown replay kind " + rf.Kind }
+	"pgregory.net/rapid"
+	"verif/harness/internal/vstat"
+)
+
+var (
+	c10Histories  = flag.Int("c10.histories", 0, "C10 stress: number of free-running histories (0 = 200 quick / 3000 thorough)")
+	c10OpBudget   = flag.Int("c10.ops", 300, "C10 stress: cap on workers x operations per history")
+	c10LinTimeout = flag.Duration("c10.lintimeout", 30*time.Second, "C10: porcupine timeout per history (a timeout is inconclusive)")
+	c10Stall      = flag.Duration("c10.stall", 60*time.Second, "C10 stress: real time after which unjoined workers are inspected for a deadlock")
+	c10Confirm    = flag.Duration("c10.confirm", 5*time.Second, "C10 stress: distance between the two goroutine dumps of the deadlock test")
+	c10ReplayRuns = flag.Int("c10.replayruns", 200, "C10 replay of a workload (crash / race class): how many free-running executions")
+)
+
+// replayT is set by TestReplay (synctest needs the *testing.T).
+var replayT *testing.T
+
+// TestC10Gate: deterministic schedules around the lock exchange of Add.
+func TestC10Gate(t *testing.T) {
+	if !vstat.Enabled("C10") {
+		t.Skip()
+	}
+	rec := vstat.New("C10", "gate")
+	rec.RunRapid(t, func(rt *rapid.T) {
+		sc := genGate(rt)
+		rec.Current(sc)
+		st, _, fail := runGate(t, sc)
+		rec.Case(sc, st.nontrivial, st.list()...)
+		if fail != nil {
+			rt.Fatalf("%s", rec.Fail(sc, fail.class, "%s", fail.msg))
+		}
+	})
+}
+
+type stressSample struct {
+	Seed     int64 `json:"seed"`
+	Index    int   `json:"index"`
+	Workers  int   `json:"workers"`
+	TotalOps int   `json:"total_ops"`
+	FirstOps []HOp `json:"first_ops"`
+}
+
+// TestC10Stress: free-running histories, judged afterwards; built with -race by the driver.
+func TestC10Stress(t *testing.T) {
+	if !vstat.Enabled("C10") {
+		t.Skip()
+	}
+	rec := vstat.New("C10", "stress")
+	n := *c10Histories
+	if n <= 0 {
+		n = 200
+		if *vstat.Tier == "thorough" {
+			n = 3000
+		}
+	}
+	rec.SetRequested(n)
+	completed := false
+	defer func() { rec.Flush(completed) }()
+
+	open := vstat.OpenClasses("C10")
+	_, d6open := open[classD6]
+	rl := newRaceLog()
+	switch {
+	case !raceEnabled:
+		rec.Note("stress part built without -race: the race-report oracle is inactive in this run")
+		rl = nil
+	case rl == nil:
+		rec.Note("GORACE has no log_path: race reports cannot be read back, the race-report oracle is inactive in this run")
+	}
+	raceClasses := map[string]bool{}
+	violations := 0
+	raceVerdict := func(h *History) {
+		for _, rep := range rl.fresh() {
+			if raceClasses[rep.class] {
+				continue
+			}
+			raceClasses[rep.class] = true
+			if _, listed := open[rep.class]; listed {
+				// Listed and excluded by construction, yet reported: the exclusion is incomplete.
+				rec.Note("race class %s is a listed open finding but was reported inside the workload", rep.class)
+			}
+			hh := *h
+			hh.RaceReport = rep.text
+			hh.Note = "race reports depend on the schedule; a replay re-runs nothing, it re-judges the recorded history"
+			rec.AddViolation(&hh, "history", rep.class, "race detector: %s / %s\n%s", rep.frames[0], rep.frames[1], excerpt(rep.text, 1800))
+			violations++
+			t.Fail()
+		}
+	}
+	if d6open {
+		f := open[classD6]
+		rl.fresh()
+		probeD6()
+		found := false
+		for _, rep := range rl.fresh() {
+			if rep.class == classD6 {
+				found = true
+			} else if !raceClasses[rep.class] {
+				raceClasses[rep.class] = true
+				rec.AddViolation(&History{RaceReport: rep.text, Note: "reported by the minimal Leaf.Update || Delete probe"}, "history", rep.class, "race detector: %s / %s\n%s", rep.frames[0], rep.frames[1], excerpt(rep.text, 1800))
+				violations++
+				t.Fail()
+			}
+		}
+		switch {
+		case found:
+			rec.KnownFinding(fmt.Sprintf("KNOWN-FINDING: property=C10 %s (%s: minimal probe Leaf.Update(2) || Delete([a]) still reports the race; handle updates and deletes are kept apart in the workload)", f.What, f.ID))
+			raceClasses[classD6] = true
+		case rl != nil:
+			rec.Note("open finding %s (%s) is listed but the minimal probe no longer reports the race", f.ID, classD6)
+		}
+		rec.Note("open finding %s: handle updates and deletes are serialised by the harness; every prevented overlap is counted in excluded_known", classD6)
+	}
+
+	rng := rand.New(rand.NewSource(*vstat.Seed))
+	var worst, total time.Duration
+	worstOps, inconclusive, judged := 0, 0, 0
+	for i := 0; i < n && violations < 3; i++ {
+		w := genWorkload(rng, i, *c10OpBudget)
+		w.Seed = *vstat.Seed
+		w.SerialiseUpdateDelete = d6open
+		rec.Current(w)
+		run := &stressRun{w: w}
+		h, stuck, deadlock := run.run(*c10Stall, *c10Confirm)
+		for k := int64(0); k < run.avoided.Load(); k++ {
+			rec.Excluded(classD6)
+		}
+		if stuck != "" {
+			if deadlock {
+				rec.AddViolation(w, "workload", "deadlock", "%s", stuck)
+				violations++
+				t.Fail()
+			} else {
+				rec.Note("history %d inconclusive: %s", i, stuck)
+				inconclusive++
+			}
+			// the stuck goroutines cannot be reclaimed: stop here
+			return
+		}
+		raceVerdict(h)
+		v := judge(h, *c10LinTimeout)
+		if v.linTime > worst {
+			worst, worstOps = v.linTime, v.linOps
+		}
+		total += v.linTime
+		if v.inconclusive != "" {
+			rec.Note("history %d (seed %d) inconclusive: %s", i, w.Seed, v.inconclusive)
+			inconclusive++
+			continue
+		}
+		judged++
+		cl := classify(h)
+		rec.CaseHash(vstat.Hash(h.Ops), cl.nontrivial, func() any {
+			s := stressSample{Seed: h.Seed, Index: h.Index, Workers: h.Workers, TotalOps: len(h.Ops), FirstOps: h.Ops}
+			if len(s.FirstOps) > 30 {
+				s.FirstOps = s.FirstOps[:30]
+			}
+			return s
+		}, cl.list()...)
+		if v.class != "" {
+			h.Note = "free-running history: the schedule cannot be reproduced; a replay re-judges this recorded history"
+			rec.AddViolation(h, "history", v.class, "%s", v.msg)
+			violations++
+			t.Fail()
+		}
+	}
+	if judged > 0 {
+		rec.Note("stress: %d histories judged, %d inconclusive; worst linearizability check %v (%d model operations), mean %v; schedules are the real scheduler's and are not reproducible, replay files hold the recorded history",
+			judged, inconclusive, worst.Round(time.Microsecond), worstOps, (total / time.Duration(judged)).Round(time.Microsecond))
+	}
+	if len(raceClasses) > 0 {
+		var cs []string
+		for c := range raceClasses {
+			cs = append(cs, c)
+		}
+		sort.Strings(cs)
+		rec.Note("race classes reported: %v", cs)
+	}
+	completed = violations > 0 || inconclusive*20 <= n
+}
+
+func excerpt(s string, n int) string {
+	if len(s) > n {
+		return s[:n] + "…"
+	}
+	return s
+}
+
+// replayC10 re-runs a saved C10 input: gate scenarios deterministically;
+// stress histories are re-judged (their schedule cannot be reproduced);
+// workloads (crash files, deadlocks) are executed again free-running.
+func replayC10(rf *vstat.ReplayFile) string {
+	if rf.Property != "C10" {
+		return "unknown replay kind " + rf.Kind
+	}
+	var probe struct {
+		Threads json.RawMessage `json:"threads"`
+		Ops     json.RawMessage `json:"ops"`
+		Progs   json.RawMessage `json:"progs"`
+	}
+	if err := json.Unmarshal(rf.Scenario, &probe); err != nil {
+		return "bad scenario: " + err.Error()
+	}
+	switch {
+	case probe.Threads != nil:
+		var sc GateScenario
+		if err := json.Unmarshal(rf.Scenario, &sc); err != nil {
+			return "bad gate scenario: " + err.Error()
+		}
+		if replayT == nil {
+			return "gate replay needs the test handle"
+		}
+		_, hist, fail := runGate(replayT, &sc)
+		for i := range hist.Ops {
+			fmt.Println("  ", hist.Ops[i].String())
+		}
+		if fail != nil {
+			return fail.class + ": " + fail.msg
+		}
+		return ""
+	case probe.Progs != nil:
+		var w Workload
+		if err := json.Unmarshal(rf.Scenario, &w); err != nil {
+			return "bad workload: " + err.Error()
+		}
+		fmt.Printf("NOTE: a workload is replayed free-running %d times; the original schedule cannot be reproduced\n", *c10ReplayRuns)
+		rl := newRaceLog()
+		if !raceEnabled {
+			rl = nil
+		}
+		for i := 0; i < *c10ReplayRuns; i++ {
+			run := &stressRun{w: &w}
+			h, stuck, deadlock := run.run(*c10Stall, *c10Confirm)
+			if stuck != "" {
+				if deadlock {
+					return "deadlock: " + stuck
+				}
+				fmt.Println("NOTE: inconclusive:", stuck)
+				return ""
+			}
+			if v := judge(h, *c10LinTimeout); v.class != "" {
+				return v.class + ": " + v.msg
+			}
+			for _, rep := range rl.fresh() {
+				if rep.class != classD6 || rf.Class == classD6 {
+					return rep.class + ": race detector: " + rep.frames[0] + " / " + rep.frames[1]
+				}
+			}
+		}
+		return ""
+	case probe.Ops != nil:
+		var h History
+		if err := json.Unmarshal(rf.Scenario, &h); err != nil {
+			return "bad history: " + err.Error()
+		}
+		fmt.Println("NOTE: recorded free-running history: the schedule cannot be reproduced, the history is re-judged by the oracles")
+		v := judge(&h, *c10LinTimeout)
+		switch {
+		case v.class != "":
+			return v.class + ": " + v.msg
+		case v.inconclusive != "":
+			fmt.Println("NOTE: inconclusive:", v.inconclusive)
+		case h.RaceReport != "":
+			fmt.Println("NOTE: this file records a race-detector report; the recorded history itself satisfies the history oracles, the report is not re-creatable from it (run the stress part)")
+		}
+		return ""
+	}
+	return "unrecognised C10 scenario"
+}
